@@ -15,7 +15,7 @@ def check(name, specs, case, viol, lattice=True):
     shape = tuple(case['shape'])
     ch = case.get('channels')
     try:
-        res = S.run(specs, shape, case['seed'], channels=ch, extra_targets=True)
+        res = S.run(specs, shape, case['seed'], channels=ch, extra_targets=True, via_replay=bool(case.get('via_replay')))
     except Exception as e:  # noqa
         viol.append({'site': 'C01:%s:raises' % name, 'name': name, 'pipeline': specs, 'case': case, 'lattice': lattice,
                      'observed': '%s: %s' % (type(e).__name__, e), 'expected': 'no exception'})
@@ -66,6 +66,10 @@ def run(seed=0, tier='quick', hints=None, broken=False):
             check(c['cls'], [c], case, viol)
             evals += 1
             seen.add((c['cls'], shape, case['channels']))
+        # the same pipeline run through a replay record: every target, the additional ones included, follows the image
+        c = rng.choice(cfgs)
+        check(c['cls'] + '-replayed', [c], dict(case, via_replay=True), viol)
+        evals += 1
         second = [S.L('HorizontalFlip'), S.L('Transpose'), S.L('RandomRotate90', axes=rng.choice(S.PLANES)),
                   S.L('SliceFlip')]
         for c in rng.sample(cfgs, 4):
